@@ -199,6 +199,17 @@ def function_inputs(target, seed=0, n=400):
             if target == 'segment.detection':
                 d.update(window=rng.choice([0.5, 0.25, 3.0]), beta=rng.choice([1.0, 2.0]))
             yield d
+    if target.startswith('alignment.') and target.split('.')[1] in ('percentage_correct_segments', 'percentage_correct', 'absolute_error'):
+        for _ in range(n):
+            k = rng.randint(1, 6)
+            ref = sorted(rng.sample([0.25 * x for x in range(0, 41)], k))
+            est = sorted(max(0.0, t + rng.choice([0.0, 0.25, -0.25, 1.5, -1.25, 2.25, 0.5])) for t in ref)
+            d = dict(reference_timestamps=ref, estimated_timestamps=est)
+            if target.endswith('percentage_correct_segments'):
+                d['duration'] = rng.choice([None, None, max(ref[-1], est[-1]), max(ref[-1], est[-1]) + 1.5, 12.0])
+            elif target.endswith('percentage_correct'):
+                d['window'] = rng.choice([0.3, 0.25, 1.0])
+            yield d
     if target == 'util.interpolate_intervals':
         grid = [0.25 * x for x in range(0, 13)]
         for _ in range(n):
